@@ -199,6 +199,24 @@ WEAK = ("info", "client", "server", "follow", "slaveof")
 def damage(rec, n):
     if rec["largs"][0] in WEAK or (rec["largs"][0] == "timeout" and len(rec["largs"]) > 2 and rec["largs"][2] in WEAK):
         return False
+    if rec["src"] == "ks" and n % 3 == 0:
+        # the model's own result changed: the real reply no longer equals it
+        rr = rec["exp"]["rr"]
+        if rr["t"] == "int":
+            rr["n"] += 1
+        elif rr["t"] == "ok":
+            rr["t"] = "nil"
+        elif rr["t"] == "nil":
+            rr["t"] = "ok"
+        elif rr["t"] == "err":
+            rr["e"] += "~"
+        elif rr["t"] in ("str", "sstr"):
+            rr["t"] = "nil"
+        elif rr["t"] == "arr":
+            rr["a"].append({"t": "nil"})
+        else:
+            return False
+        return any(x["sent"] and x["ping"] == "resp" for x in rec["lanes"])
     js = [x for x in rec["lanes"] if x["sent"] and x["fwf"] and x["jerr"] == "" and x["jv"]["t"] == "obj" and x["ping"] == "json"]
     rs = [x for x in rec["lanes"] if x["sent"] and x["fwf"] and x["rv"]["t"] != "none" and x["ping"] == "resp"]
     if not js or not rs:
